@@ -178,7 +178,7 @@ def run_correspondence(ck, consts):
     cases += load_jsonl(outp)
     # more small Loki JSON and Datadog log documents (two of three damaged by one edit) for the walk models
     outp2 = os.path.join(ck.work, "lokidoc.jsonl")
-    rc, out = ck.go_run("decode", ["--seed", ck.seed, "--n", ck.n(300, 8000), "--out", outp2], timeout=600, env_extra=dict(henv, C03_ONLY="lokidoc"))
+    rc, out = ck.go_run("decode", ["--seed", ck.seed, "--n", ck.n(300, 3000), "--out", outp2], timeout=600, env_extra=dict(henv, C03_ONLY="lokidoc"))
     if rc != 0:
         ck.obligation("harness decode (Loki JSON documents) ran", False, out[-1500:])
         return
@@ -539,12 +539,80 @@ def run_time(ck):
                             "non-trivial = written from a timestamp more than a second away from the epoch; distinct by text. ")
 
 
+NHEADER = ("From Coq Require Import List ZArith NArith Bool String.\n"
+           "From Qryn Require Import model.Ndjson.\n"
+           "Import ListNotations.\nOpen Scope Z_scope.\n")
+
+
+def run_ndjson(ck):
+    """the line-by-line decoders (Datadog logs from Cloudflare, Elasticsearch bulk): no line that holds an entry is lost"""
+    ok, out = ck.coq_make(["model/Ndjson.vo"])
+    if not ok:
+        ck.obligation("model/Ndjson.v builds", False, out[-1500:])
+        return
+    env = {"C03_MODE": "ndjson"}
+    cases = []
+    srcs = []
+    corpus = os.path.join(ROOT, "corpus", PID, "ndjson.jsonl")
+    if os.path.exists(corpus):
+        srcs.append(("corpus", corpus, 1000000))
+    if ck.replay:
+        rp = json.load(open(ck.replay))
+        if "ndjson_case" in rp:
+            p = os.path.join(ck.work, "ndjson_replay_in.jsonl")
+            open(p, "w").write(json.dumps({k: v for k, v in rp["ndjson_case"].items() if k != "coq"}) + "\n")
+            srcs.append(("replay", p, 2000000))
+    for tag, path, base in srcs:
+        outp = os.path.join(ck.work, "ndjson_%s_out.jsonl" % tag)
+        rc, out = ck.go_run("decode", ["--cases", path, "--out", outp], env_extra=env)
+        ck.obligation("newline-delimited %s cases re-run" % tag, rc == 0, out[-1500:])
+        if rc == 0:
+            cs = [json.loads(l) for l in open(outp) if l.strip()]
+            for i, c in enumerate(cs):
+                c["id"] = base + i
+                c["coq"] = re.sub(r"^NCase \d+ ", "NCase %d " % c["id"], c["coq"])
+                c["class"] = tag + ":" + c["class"]
+            cases += cs
+    outp = os.path.join(ck.work, "ndjson.jsonl")
+    rc, out = ck.go_run("decode", ["--seed", ck.seed, "--n", ck.n(120, 2000), "--out", outp], timeout=600, env_extra=env)
+    if rc != 0:
+        ck.obligation("harness decode (newline-delimited bodies) ran", False, out[-1500:])
+        return
+    cases += [json.loads(l) for l in open(outp) if l.strip()]
+    byid = {c["id"]: c for c in cases}
+    m, viol, out = eval_two(ck, "C03_ndjson", NHEADER, "ncase", cases, "n_check_all")
+    if m is None:
+        ck.obligation("newline-delimited cases evaluated inside Coq", False, out[-2500:])
+        return
+    viol = sorted(set(viol) | {c["id"] for c in cases if c["err"] == "panic"})
+    nlong = sum(1 for c in cases if "over-64KiB" in c["class"])
+    ck.obligation("newline-delimited bodies (Datadog logs from Cloudflare, Elasticsearch bulk; %d bodies, %d with a line over 64 KiB): unless the request fails every line that holds an entry is a row, once, in order"
+                  % (len(cases), nlong), not viol, "violating case ids: %s" % viol[:10])
+    if viol:
+        worst = min((byid[i] for i in viol), key=lambda c: (len(c["lines"]), sum(l["len"] for l in c["lines"])))
+        ck.violation({"property": PID, "kind": "lines of a newline-delimited body are lost although the request succeeds",
+                      "proto": worst["proto"], "class": worst["class"], "ndjson_case": {k: v for k, v in worst.items() if k != "coq"},
+                      "lines_holding_an_entry": worst["expected"], "lines_found_in_the_rows": worst["obs_rows"],
+                      "cases_with_this_failure": len(viol),
+                      "explanation": "n_spec_violation (coq/model/Ndjson.v); the body is the lines of 'lines' (kind, filler length, tag) as written by harness/cmd/decode/ndjson.go",
+                      "replay": "bin/check C03 --replay <this file>"})
+    hist = {}
+    for c in cases:
+        key = "ndjson/" + c["proto"] + "/" + ("short-lines" if "over-64KiB" not in c["class"] else "line-over-64KiB") + "/" + (c["err"] or "ok")
+        hist[key] = hist.get(key, 0) + 1
+    ck.extra["newline_delimited_distribution"] = hist
+    ck.coverage["evaluations"] += len(cases)
+    ck.coverage["distinct_nontrivial"] += len({json.dumps(c["lines"]) for c in cases if len(c["expected"]) >= 2})
+    ck.coverage["rule"] += "Newline-delimited bodies for the Cloudflare-Datadog and Elasticsearch bulk decoders: 1-6 entries, two of three bodies with one line of 64-134 KiB; non-trivial = at least 2 entries. "
+
+
 def run(ck):
     ck.trusted += [
         "C03: the tokenizers / wire decoders (jx, protobuf, the telegraf Influx parser, the Datadog tag regexp) are crossed by the correspondence only; time.Parse(RFC3339) and unicode.IsLetter/IsDigit are oracles of the text models (tables computed by the harness with the same library calls); the harness's serialisers are trusted except for Loki JSON, whose document tree is walked by the model itself, and Loki label strings / timestamp texts, which the model parses itself",
         "C03: fingerprintLabels and len(encodeLabels) are oracles of the model (theorems hold for every such function); per case they are the table read off the implementation's own time_series rows, label lists compared as multisets (permutation invariance of the fingerprint is C04's theorem)",
         "C03: the fingerprint cache is abstract in the theorems; the harness runs with the never-hit cache of a clustered deployment or a per-request set cache; Go map iteration order (Influx fields, OTLP attributes) is not modelled: rows of one Influx line are compared as a multiset",
         "C03: state kept by the process between requests is looked for by decoding all bodies of a run (and explicit histories) in one process and checking every body against the model of that body alone; package-level variables of writer/utils/unmarshal are listed in the evidence (package_state)",
+        "C03: the Cloudflare-Datadog and Elasticsearch bulk decoders are covered only at the level of which body lines become rows (model/Ndjson.v; their label construction and time.Now() stamps are not modelled)",
         "C03: time.Now() for missing Datadog timestamps and Influx 'message' lines with further fields (logfmt in map order) are outside the model (not generated)",
     ]
     consts = regen(ck)
@@ -565,7 +633,7 @@ def run(ck):
         return
     # the three correspondences (bodies, label strings, timestamp texts) are evaluated side by side
     from concurrent.futures import ThreadPoolExecutor
-    with ThreadPoolExecutor(max_workers=3) as ex:
-        fs = [ex.submit(run_correspondence, ck, consts), ex.submit(run_labels, ck), ex.submit(run_time, ck)]
+    with ThreadPoolExecutor(max_workers=4) as ex:
+        fs = [ex.submit(run_correspondence, ck, consts), ex.submit(run_labels, ck), ex.submit(run_time, ck), ex.submit(run_ndjson, ck)]
         for f in fs:
             f.result()
